@@ -21,6 +21,9 @@ CACHE = os.path.join(ROOT, '.cache')
 KANI_VERSION = 'kani-0.68.0'
 
 
+# failed-check descriptions that mean an access outside an object (everything else a `safety_only` harness reports is a panic)
+MEMSAFE = re.compile(r'dereference failure|pointer (arithmetic|relation|NULL|outside)|unsafe precondition|Rust intrinsic assumption failed|invalid pointer|deallocated|dead object|memcpy|memmove|memset|misaligned|out of bounds.*pointer', re.I)
+
 MEM_LIMIT = int(os.environ.get('VERIF_KANI_MEM_GB', '24')) * 1024 ** 3
 
 
@@ -91,7 +94,7 @@ def parse_kani(out, names):
         failed_checks = re.findall(r'Failed Checks: (.*)', txt)
         cov = re.search(r'\*\* (\d+) of (\d+) cover properties satisfied', txt)
         unwind = 'unwinding assertion' in txt and st == 'failed'
-        res[short] = {'status': st, 'checks': checks, 'failed_checks': failed_checks[:10], 'text': txt[-3000:],
+        res[short] = {'status': st, 'checks': checks, 'failed_checks': failed_checks[:40], 'text': txt[-3000:],
                       'cover_ok': (cov is None) or cov.group(1) == cov.group(2), 'unwind_fail': unwind}
     return res
 
@@ -221,6 +224,15 @@ def run(unit_name, repo, tier, seed):
             shutil.rmtree(scratch, ignore_errors=True)
     for h in spec['harnesses']:
         r = parsed.get(h['name'])
+        if r and h.get('safety_only') and r['status'] == 'failed' and not r['unwind_fail']:
+            # C08 harnesses over arbitrary arguments: a panic (failed assertion / checked index / overflow check) is documented behaviour and
+            # ends the path; only memory-safety checks count
+            mem = [c for c in r['failed_checks'] if MEMSAFE.search(c)]
+            r = dict(r, ignored_panic_checks=[c for c in r['failed_checks'] if not MEMSAFE.search(c)][:6])
+            if mem:
+                r['failed_checks'] = mem
+            elif len(r['failed_checks']) < 10:
+                r['status'] = 'ok'
         res['obligations'] += 1
         entry = {'fn': ', '.join(h['fns']), 'file': spec.get('src', 'src/bits.rs'), 'unit': 'kani:' + unit_name,
                  'backend': 'kani/cbmc', 'harness': h['name'], 'domain': h.get('domain', ''), 'checks': r['checks'] if r else 0}
